@@ -41,3 +41,102 @@ func TestVerifReplay(t *testing.T) {
 `
 	return "filesystem", src, "^TestVerifReplay$", false, nil
 }
+
+func init() { replayDrivers["rm-symlink"] = replayRmSymlink }
+
+// replayRmSymlink: on the OS backend, a tree that contains a symbolic link to a directory outside of it (and a dangling
+// link) is removed / garbage collected; nothing outside may be touched and, on success, the tree must be gone.
+func replayRmSymlink(ex *Exec, o *Obligation) (string, string, string, bool, error) {
+	src := `package filesystem
+
+import (
+	"os"
+	"path/filepath"
+	"testing"
+	"time"
+)
+
+func verifMkTree(t *testing.T) (root, tree, precious string) {
+	root = t.TempDir()
+	tree = filepath.Join(root, "tree")
+	outside := filepath.Join(root, "outside")
+	_ = os.MkdirAll(filepath.Join(tree, "sub"), 0o755)
+	_ = os.MkdirAll(outside, 0o755)
+	precious = filepath.Join(outside, "precious.txt")
+	_ = os.WriteFile(precious, []byte("keep"), 0o644)
+	_ = os.WriteFile(filepath.Join(tree, "sub", "f.txt"), []byte("x"), 0o644)
+	if err := os.Symlink(outside, filepath.Join(tree, "lnk")); err != nil {
+		t.Skip("symlinks not available")
+	}
+	_ = os.Symlink(filepath.Join(root, "nowhere"), filepath.Join(tree, "dangling"))
+	old := time.Now().Add(-48 * time.Hour)
+	_ = os.Chtimes(precious, old, old)
+	_ = os.Chtimes(filepath.Join(tree, "sub", "f.txt"), old, old)
+	return
+}
+
+func TestVerifReplay(t *testing.T) {
+	fs := NewFs(StandardFS)
+	// 1. Rm of the tree
+	_, tree, precious := verifMkTree(t)
+	err := fs.Rm(tree)
+	if _, serr := os.Stat(precious); serr != nil {
+		t.Fatalf("REPRODUCED: Rm(tree) followed tree/lnk and deleted %s (Rm returned %v)", precious, err)
+	}
+	if _, lerr := os.Lstat(tree); err == nil && lerr == nil {
+		t.Fatalf("REPRODUCED: Rm(tree) reported success but the tree is still there")
+	}
+	// 2. Rm of a dangling link
+	root2 := t.TempDir()
+	d := filepath.Join(root2, "dangling")
+	_ = os.Symlink(filepath.Join(root2, "nowhere"), d)
+	err = fs.Rm(d)
+	if _, lerr := os.Lstat(d); err == nil && lerr == nil {
+		t.Fatalf("REPRODUCED: Rm(dangling link) reported success but the link is still there")
+	}
+	// 3. garbage collection of the tree
+	_, tree3, precious3 := verifMkTree(t)
+	err = fs.GarbageCollect(tree3, time.Hour)
+	if _, serr := os.Stat(precious3); serr != nil {
+		t.Fatalf("REPRODUCED: GarbageCollect(tree) followed tree/lnk and deleted %s (returned %v)", precious3, err)
+	}
+	t.Logf("NOT-REPRODUCED")
+}
+`
+	return "filesystem", src, "^TestVerifReplay$", false, nil
+}
+
+func init() { replayDrivers["excl-nested"] = replayExclNested }
+
+// replayExclNested: an entry whose name matches an exclusion pattern two levels down must survive a removal.
+func replayExclNested(ex *Exec, o *Obligation) (string, string, string, bool, error) {
+	src := `package filesystem
+
+import (
+	"context"
+	"testing"
+)
+
+func TestVerifReplay(t *testing.T) {
+	for _, fsType := range FileSystemTypes {
+		fs := NewFs(fsType)
+		tree, err := fs.TempDirInTempDir("verif-excl-")
+		if err != nil {
+			t.Fatal(err)
+		}
+		defer func() { _ = fs.Rm(tree) }()
+		_ = fs.MkDir(tree + "/a/keepme")
+		_ = fs.MkDir(tree + "/keepme")
+		_ = fs.WriteFile(tree+"/a/keepme/f.txt", []byte("x"), 0o644)
+		_ = fs.WriteFile(tree+"/keepme/g.txt", []byte("x"), 0o644)
+		_ = fs.WriteFile(tree+"/a/other.txt", []byte("x"), 0o644)
+		err = fs.RemoveWithContextAndExclusionPatterns(context.Background(), tree, "keepme")
+		if !fs.Exists(tree + "/a/keepme/f.txt") {
+			t.Fatalf("REPRODUCED (%v): RemoveWithContextAndExclusionPatterns(tree, \"keepme\") deleted tree/a/keepme/f.txt (returned %v); first-level keepme survives: %v", fsType, err, fs.Exists(tree+"/keepme/g.txt"))
+		}
+	}
+	t.Logf("NOT-REPRODUCED")
+}
+`
+	return "filesystem", src, "^TestVerifReplay$", false, nil
+}
